@@ -1,19 +1,28 @@
-//! ad-hoc probe: consume_tokens / try_consume_tokens / validate_tokens with an EOS in the middle
-use llgv::engine::{factory, matcher, GrammarSpec};
+//! ad-hoc probe: sample a grammar strategy, compile each sample, print compile errors and a few samples
+use llgv::engine::{factory, matcher};
+use proptest::strategy::{Strategy, ValueTree};
+use proptest::test_runner::{Config, RngSeed, TestRunner};
 fn main() {
+    let which = std::env::args().nth(1).unwrap_or("line".into());
     let v = llgv::walk::byte_vocab();
     let f = factory(&v);
-    let g = GrammarSpec::Lark(std::env::args().nth(1).unwrap());
-    let e = v.eos[0];
-    let a = b'a' as u32;
-    for seq in [vec![a, e, a], vec![a, e, e], vec![a, e], vec![e, a]] {
-        let mut m = matcher(&f, &g);
-        println!("validate {:?} = {:?}", seq, m.validate_tokens(&seq).map_err(|e| e.to_string()));
-        let mut m = matcher(&f, &g);
-        let r = m.consume_tokens(&seq).map_err(|e| llgv::engine::short_err(&e.to_string()));
-        println!("consume_tokens {:?} = {:?} stopped={} reason={:?} err={}", seq, r, m.is_stopped(), m.stop_reason(), m.is_error());
-        let mut m = matcher(&f, &g);
-        let r = m.try_consume_tokens(&seq).map_err(|e| llgv::engine::short_err(&e.to_string()));
-        println!("try_consume {:?} = {:?} stopped={} reason={:?}", seq, r, m.is_stopped(), m.stop_reason());
+    let mut r = TestRunner::new(Config { rng_seed: RngSeed::Fixed(7), ..Config::default() });
+    let st = match which.as_str() {
+        "line" => llgv::gen::line_grammar(),
+        _ => llgv::gen::any_grammar(),
+    };
+    let mut bad = 0;
+    for i in 0..300 {
+        let g = st.new_tree(&mut r).unwrap().current();
+        let m = matcher(&f, &g);
+        if let Some(e) = m.get_error() {
+            bad += 1;
+            if bad < 6 {
+                println!("COMPILE ERROR {}\n   {}", g.text(), llgv::engine::short_err(&e));
+            }
+        } else if i < 8 {
+            println!("ok: {}", g.text().replace('\n', " ⏎ "));
+        }
     }
+    println!("{} of 300 failed to compile", bad);
 }
